@@ -287,6 +287,11 @@ def r5_default_election(ctx):
     blk = pm[hits[0]]
     seq = blk.orelse if hits[0] in getattr(blk, "orelse", []) else blk.body
     txt = {astx.u(s.targets[0]): astx.u(s.value) for s in seq if isinstance(s, ast.Assign)}
+    if "eliminated" not in txt:
+        # a default set before the branching stands when the branch does not touch it
+        rd = [dv for _st, dv in astx.reaching_defs(f.node, "eliminated", seq[-1])]
+        if rd and all(dv is not None and astx.u(dv) == "(frozenset(),)" for dv in rd):
+            txt["eliminated"] = "(frozenset(),)"
     ctx.check(txt.get("new_profile") == "PreferenceProfile()" and txt.get("eliminated") == "(frozenset(),)", f, hits[0],
               "default election leaves an empty profile and eliminates nobody", str(txt), f"branch assigns {txt}")
 
@@ -351,6 +356,11 @@ def r6_elimination(ctx):
     blk = pm[astx.stmt_of(rcs[0], pm)]
     seq = blk.orelse if astx.stmt_of(rcs[0], pm) in getattr(blk, "orelse", []) else blk.body
     txt = {astx.u(s.targets[0]): astx.u(s.value) for s in seq if isinstance(s, ast.Assign)}
+    if "eliminated" not in txt:
+        # a default set before the branching stands when the branch does not touch it
+        rd = [dv for _st, dv in astx.reaching_defs(f.node, "eliminated", seq[-1])]
+        if rd and all(dv is not None and astx.u(dv) == "(frozenset(),)" for dv in rd):
+            txt["eliminated"] = "(frozenset(),)"
     ok = txt.get("elected") == "(frozenset(),)" and txt.get("eliminated") in (f"(frozenset([{ev.id}]),)", f"(frozenset({{{ev.id}}}),)")
     ctx.check(ok, f, rcs[0], "elimination round records exactly that one candidate as eliminated and nobody as elected", str({k: txt[k] for k in txt if k in ('elected', 'eliminated')}),
               f"elimination branch records {txt}")
@@ -389,10 +399,31 @@ def r8_transfer_wiring(ctx):
         ctx.check(bool(good), f, c, "transfer(candidate, its tally, its first-place ballots, threshold)", astx.u(c),
                   f"`{astx.u(c)}`: the four arguments must refer to one candidate, prev_state.scores, ballots_by_first_cand(profile) and self.threshold")
         # everybody else's ballots are carried over unchanged
-        carry = [n for n in astx.walk_own(f.node) if isinstance(n, ast.Assign) and isinstance(n.value, ast.Call)
-                 and astx.u(n.value.func) == "tuple" and re.fullmatch(r"\w+\[\w+\]", astx.u(n.value.args[0]))]
-        ctx.check(len(carry) == 1, f, carry[0] if carry else f.node, "non-elected candidates' ballots carried over unchanged",
-                  astx.u(carry[0]) if carry else "", "ballots of non-elected candidates are no longer copied unchanged")
+        # (a pile `ballots_by_first_cand(profile)[x]` that does not go through the transfer function reaches the pool as it
+        # is: bound to a name / stored, or added with extend / +=, possibly wrapped in tuple() / list())
+        pmf = astx.parents(f.node)
+        piles = {n.targets[0].id for n in astx.walk_own(f.node) if isinstance(n, ast.Assign) and isinstance(n.targets[0], ast.Name)
+                 and isinstance(n.value, ast.Call) and astx.call_name(n.value) == "ballots_by_first_cand"}
+        in_transfer = {id(x) for x in ast.walk(c)}
+        uses = [n for n in astx.walk_own(f.node) if isinstance(n, ast.Subscript) and isinstance(n.ctx, ast.Load) and isinstance(n.value, ast.Name) and n.value.id in piles
+                and not isinstance(n.slice, ast.Slice) and id(n) not in in_transfer]
+
+        def unchanged_sink(n):
+            cur, par = n, pmf.get(n)
+            while isinstance(par, ast.Call) and astx.u(par.func) in ("tuple", "list") and len(par.args) == 1 and par.args[0] is cur:
+                cur, par = par, pmf.get(par)
+            if isinstance(par, ast.Assign) and par.value is cur:
+                return True
+            # a read that only measures the pile (len(pile) for a cursor) is not a sink and not a change either
+            if isinstance(par, ast.Call) and astx.u(par.func) == "len":
+                return True
+            if isinstance(par, ast.AugAssign) and par.value is cur and isinstance(par.op, ast.Add):
+                return True
+            return isinstance(par, ast.Call) and isinstance(par.func, ast.Attribute) and par.func.attr in ("extend",) and cur in par.args
+        carry = [n for n in uses if unchanged_sink(n)]
+        ctx.check(len(carry) >= 1 and len(carry) == len(uses), f, carry[0] if carry else f.node, "non-elected candidates' ballots carried over unchanged",
+                  astx.u(carry[0]) if carry else "", "ballots of non-elected candidates are no longer copied unchanged"
+                  + (f": `{astx.u(pmf.get([u_ for u_ in uses if u_ not in carry][0]))[:70]}`" if len(carry) != len(uses) else ""))
     f = prog.find_func("STV._single_elect_step")
     sel = prog.find_func("elect_cands_from_set_ranking")
     cs = astx.calls_in(f.node, "elect_cands_from_set_ranking")
